@@ -160,7 +160,6 @@ func d70Round(mode string, seed uint64, senders, reconfigs int) (res d70Result) 
 		if time.Since(t0) > 300*time.Millisecond {
 			slow++
 		}
-		c.Timeout = 60 * time.Second // ApplyConfig sets it from the key "" (60 s default); keep it explicit
 		time.Sleep(time.Duration(rr.Intn(400)) * time.Microsecond)
 		res.Reconfigs++
 	}
